@@ -1,0 +1,29 @@
+//go:build verif
+
+package internal
+
+// Contracts for the deductive checker in /verif (comment-only; compiled only under the verif tag).
+
+// pder(f, k): the k-th formal derivative of the polynomial f
+//@ ghost func pder(f V, k Int) V
+//@ theory birkhoffphi
+//@ axiom PDer0: forall f V :: pder(f, 0) == f
+//@ axiom PDerS: forall f V, k Int :: k >= 0 ==> pder(f, k+1) == as(pder(f, k), *polynomials.Polynomial).Derivative()
+//@ end
+
+// Phi(t, i, j): the entry of the generalised Birkhoff matrix is the j-th derivative of the monomial x^t evaluated at
+// i, computed exactly in the field by differentiating the polynomial j times (for every j <= t, with no machine
+// integer intermediate that could wrap), and zero for j > t. The monomial has t zero coefficients followed by one.
+//@ func Phi
+//@   property C20, C02
+//@   uses birkhoffphi
+//@   ghostvar p0 typeof(poly)
+//@   requires t >= 0
+//@   ensures j > t ==> err == nil && result == field.Zero()
+//@   ensures err == nil && j <= t ==> poly == pder(p0, j)
+//@   ensures err == nil && j <= t ==> len(coeffs) == t + 1 && coeffs[t] == field.One() && forall c int :: 0 <= c && c < t ==> coeffs[c] == field.Zero()
+//@   loop range(coeffs)
+//@     invariant len(coeffs) == t + 1 && forall c int :: 0 <= c && c < $i ==> coeffs[c] == field.Zero()
+//@   loop range(j)
+//@     invariant poly == pder(p0, $i)
+//@   ghostset after "poly, err := polys.New(coeffs...)": p0 = poly
